@@ -128,7 +128,7 @@ def run_standins(standins, tier, seed):
 def search_counterexample(obligation, P):
     """bounded search on the real code for an input violating the failed obligation's postcondition"""
     m = P.get("cex", {})
-    oracle = m.get(obligation)
+    oracle = m.get(obligation) or P.get("cex_all")
     if not oracle:
         return None
     r = run_oracle(oracle, "thorough", 0)
